@@ -337,7 +337,7 @@ def C15(V, tier):
     # the finite spaces were enumerated completely iff TLC produced exactly the closed-form number
     # of files / bound pairs and every one of them was run and judged
     L = {"quick": (10, 8), "thorough": (13, 11)}[suf]      # file source: max bytes (LF only, with CRLF)
-    LC = {"quick": (9, 7), "thorough": (12, 10)}[suf]      # csv source (x 2 header flags)
+    LC = {"quick": (9, 7), "thorough": (11, 9)}[suf]      # csv source (x 2 header flags)
     B = {"quick": 8, "thorough": 12}[suf]
     want = {f"FileSplit_gen_{suf}": n_files(L[0], False), f"FileSplit_gen_crlf_{suf}": n_files(L[1], True),
             f"CsvSplit_gen_{suf}": 2 * n_files(LC[0], False), f"CsvSplit_gen_crlf_{suf}": 2 * n_files(LC[1], True),
